@@ -227,25 +227,45 @@ func init() {
 				}
 				n++
 				codeOK := false
-				if c, ok := b.X.(*ssa.Call); ok && c.Call.IsInvoke() && c.Call.Method.Name() == "HashCode" {
+				code := b.X
+				for {
+					// the code may be widened first (uint64(msg.HashCode())): same remainder
+					if cv, ok := code.(*ssa.Convert); ok {
+						if w, _, isInt := intWidth(cv.Type()); isInt && w >= 32 {
+							code = cv.X
+							continue
+						}
+					}
+					break
+				}
+				if c, ok := code.(*ssa.Call); ok && c.Call.IsInvoke() && c.Call.Method.Name() == "HashCode" {
 					codeOK = true
 				}
 				lenPath := pathOf(b.Y)
 				idxOK := false
-				for _, ref := range *b.Referrers() {
-					switch x := ref.(type) {
-					case *ssa.IndexAddr:
-						if "len("+pathOf(x.X)+")" == lenPath {
-							idxOK = true
-						}
-					case *ssa.Convert:
-						for _, r2 := range *x.Referrers() {
-							if ia, ok := r2.(*ssa.IndexAddr); ok && "len("+pathOf(ia.X)+")" == lenPath {
+				// the remainder reaches the index of the list whose length it was reduced by, possibly
+				// through conversions and a variable shared by both branches
+				seenV := map[ssa.Value]bool{}
+				var follow func(v ssa.Value, d int)
+				follow = func(v ssa.Value, d int) {
+					if d > 6 || seenV[v] || v.Referrers() == nil {
+						return
+					}
+					seenV[v] = true
+					for _, ref := range *v.Referrers() {
+						switch x := ref.(type) {
+						case *ssa.IndexAddr:
+							if x.Index == v && "len("+pathOf(x.X)+")" == lenPath {
 								idxOK = true
 							}
+						case *ssa.Convert:
+							follow(x, d+1)
+						case *ssa.Phi:
+							follow(x, d+1)
 						}
 					}
 				}
+				follow(b, 0)
 				r.Check(codeOK && idxOK, fname(fn), "slot = HashCode() % "+lenPath, in.Pos(), "the caller's hash code modulo the length of the list it indexes", "the slot is not msg.HashCode() reduced modulo the length of the list it indexes (%s)", lenPath)
 			})
 			if n != 2 {
